@@ -236,7 +236,7 @@ Qed.
 
 Lemma C15_range_exact_partial_proof : stmt_C15_range_exact_partial.
 Proof.
-  intros t a b s Hb H Hcons Hinv x.
+  intros t a b s Hb H Hcons Hinv x Hx.
   rewrite (C15_range_members_proof t a b s Hb H x).
   split.
   - intros [Hin | [r [Hr Hi]]].
@@ -260,12 +260,12 @@ Proof.
       destruct Hin as [Hin1 Hin2].
       apply (G _ _ _ _ Hloop x Hin1); [lia | exact Hf].
     + exists r. split; [exact Hr | exact (Hcons r x Hr Hi)].
-  - intros [r [Hr Hfe]]. exact (Hinv x r Hr Hfe).
+  - intros [r [Hr Hfe]]. exact (Hinv x r Hx Hr Hfe).
 Qed.
 
 Lemma C15_range_exact_needs_reachable_proof : stmt_C15_range_exact_needs_reachable.
 Proof.
-  intros t a b s Hb H Hex x r Hr Hfe.
+  intros t a b s Hb H Hex x r Hx Hr Hfe.
   apply (C15_range_members_proof t a b s Hb H x).
-  apply Hex. exists r. split; [exact Hr | exact Hfe].
+  apply (Hex x Hx). exists r. split; [exact Hr | exact Hfe].
 Qed.
